@@ -215,6 +215,9 @@ pub fn install_panic_hook() {
             "<non-string panic>".to_string()
         };
         LAST_PANIC.with(|p| *p.borrow_mut() = Some(format!("{loc}|{msg}")));
+        if std::env::var("PZV_BACKTRACE").is_ok() {
+            eprintln!("panic at {loc}: {msg}\n{}", std::backtrace::Backtrace::force_capture());
+        }
         if !QUIET.with(|q| q.get()) {
             default(info);
         }
